@@ -18,8 +18,9 @@
  *                         windows in increasing order without overlap (no duplicate, nothing invented)
  *   VF_PART 3  roundtrip: a packet queued by the real tpt_msg_send (all flags/states symbolic) is
  *                         delivered by the real receiver as cb(dst, udata) exactly once
- *   VF_PART 4  resync:    k1 good packets, one damaged packet, k2 good packets: all k1 + k2 good
- *                         packets are delivered in order (nothing lost behind the damage)
+ *   VF_PART 4  resync:    k1 <= 1 good packets, 1..32 damaged bytes (magic-free), good packets at the
+ *                         resulting arbitrary byte offset: every good packet is delivered once, in
+ *                         order (the receiver finds the next packet, nothing is lost or invented)
  */
 #include "vf/vf.h"
 #include "stubs/sys_msg.h"
@@ -115,26 +116,26 @@ void harness(void) {
 			VF_ASSUME(vf_in_U(&in, a + 8) == 0 || vf_in_U(&in, a + 8) == (uint64_t)(uintptr_t)vf_cb);
 	}
 #if VF_PART == 4
-	/* k1 good | one damaged packet | k2 good, everything read at once; no window that starts
-	 * inside the damaged packet passes the test (otherwise it IS a message by the receiver's definition) */
+	/* k1 good packets | g damaged bytes (1 <= g <= 32: a packet was truncated, or bytes were lost,
+	 * so everything behind it is shifted to an arbitrary byte offset) | good packets back to back.
+	 * The damaged bytes are arbitrary except that the magic does not START inside them (otherwise
+	 * the receiver is entitled to try there). */
 	VF_NONDET(size_t, k1);
-	VF_NONDET(size_t, k2);
-	VF_ASSUME(k1 + 1 + k2 <= VF_NPKT && len == 32 * (k1 + 1 + k2));
-	for (size_t j = 0; j < VF_NPKT; j ++) {
-		if (j < k1 || (j > k1 && j <= k1 + k2))
-			VF_ASSUME(vf_in_valid(&in, 32 * j) && vf_in_U(&in, 32 * j + 8) != 0);
-	}
+	VF_NONDET(size_t, g);
+	VF_ASSUME(k1 <= 1 && g >= 1 && g <= 32 && len >= 32 * k1 + g);
+	const size_t d0 = 32 * k1, p0 = d0 + g;
+#define VF_GOOD_AT(a)	(((a) < d0 && (a) % 32 == 0) || ((a) >= p0 && ((a) - p0) % 32 == 0))
 	for (size_t a = 0; a + 32 <= VF_PIPE_CAP; a ++) {
-		if (a >= 32 * k1 && a < 32 * k1 + 32)
-			VF_ASSUME(!vf_in_valid(&in, a));
+		if (VF_GOOD_AT(a) && a + 32 <= len)
+			VF_ASSUME(vf_in_valid(&in, a) && vf_in_U(&in, a + 8) == (uint64_t)(uintptr_t)vf_cb);
+	}
+	for (size_t a = 0; a + 8 <= VF_PIPE_CAP; a ++) {
+		if (a >= d0 && a < p0)
+			VF_ASSUME(vf_in_U(&in, a) != TPT_MSG_PKT_MAGIC);
 	}
 	vf_rd_no_faults = 1;
 #endif
 	gp->q = in; gp->len = len;
-#if VF_PART == 4
-	VF_ASSUME(len > 0);
-	vf_rd_force = -1;
-#endif
 
 	tpt_msg_recv_and_process(&ev, &q.udata);
 
@@ -165,16 +166,16 @@ void harness(void) {
 #else
 	if (r == len) {		/* the whole content was read */
 		size_t expect = 0;
-		for (size_t j = 0; j < VF_NPKT; j ++) {
-			if (j < k1 || (j > k1 && j <= k1 + k2)) {
-				VF_ASSERT(expect < vf_cb_calls && vf_log_udata[expect] == (void *)vf_in_U(&in, 32 * j + 16) && vf_log_tpt[expect] == &thr[0],
-				    "resync: every good packet before and behind a damaged one is delivered, in order");
+		for (size_t a = 0; a + 32 <= VF_PIPE_CAP; a ++) {
+			if (VF_GOOD_AT(a) && a + 32 <= len) {
+				VF_ASSERT(expect < vf_cb_calls && vf_log_udata[expect] == (void *)vf_in_U(&in, a + 16) && vf_log_tpt[expect] == &thr[0],
+				    "resync: every good packet before and behind the damage is delivered, in order, with its argument");
 				expect ++;
 			}
 		}
 		VF_ASSERT(vf_cb_calls == expect, "resync: nothing else is delivered");
-		if (k1 == 1 && k2 == VF_NPKT - 2) VF_CANARY("resync: good, damaged, good...");
-		if (k1 == 0 && k2 == 1) VF_CANARY("resync: damaged first");
+		if (k1 == 1 && g == 5 && vf_cb_calls == 2) VF_CANARY("resync: good, 5 damaged bytes, good");
+		if (k1 == 0 && g == 32 && vf_cb_calls == VF_NPKT - 1) VF_CANARY("resync: damaged first packet");
 	}
 #endif
 #endif
